@@ -367,7 +367,8 @@ impl L2Table {
     /// only returns `Some(_)` if some cluster is indeed leaked.
     #[must_use]
     pub fn map_cluster(&mut self, index: usize, host_cluster: u64) -> Option<(u64, usize)> {
-        let allocation = self.data[index].allocation(self.cluster_bits);
+        // `data` holds big-endian values, decode the entry before looking at it
+        let allocation = self.get(index).allocation(self.cluster_bits);
 
         self.set(
             index,
